@@ -678,6 +678,9 @@ def prefix_sum(body, nonneg=False):
     if key not in reg:
         S = c.fresh_fun("psum", [I], R)
         c.assume(SB(S(0) == 0))
+        if nonneg:
+            # a sum of non-negative summands is non-negative (needs induction: stated with the definition)
+            c.assume(SB(z3.ForAll([K], z3.Implies(K >= 0, S(K) >= 0), patterns=[S(K)])))
         reg[key] = (S, set())
     S, done = reg[key]
 
@@ -798,7 +801,7 @@ class _Linalg(_Stub):
                 for i in range(d):
                     r = r + row[i] * row[i]
                 return r
-            return ssqrt(prefix_sum(sq)(x.shape[1]))
+            return ssqrt(prefix_sum(sq, nonneg=True)(x.shape[1]))
         if isinstance(x, SArr):
             if axis == 1 and x.ndim == 2:
                 g = x._cell[0]
@@ -840,6 +843,10 @@ class _Linalg(_Stub):
         for i in range(m):
             dm[i, i] = d[i]
         c.assume(sym.eq_all(_np.dot(_np.dot(u, dm), v), a))
+        # orthogonal matrices have determinant +1 or -1 (a consequence of u^T u = I, stated for the solver)
+        for q in (u, v):
+            dq = det(q)
+            c.assume(sor(dq == 1, dq == -1))
         c.ghost["svd"] = (a, u, d, v)
         return u, d, v
 
@@ -1042,7 +1049,7 @@ class _RotVecObj:
 
 def cos_sin(th):
     t = _term(to_real(th))
-    cs, sn = uf("cos", R, R)(t), uf("sin", R, R)(t)
+    cs, sn = uf("cos_", R, R)(t), uf("sin_", R, R)(t)
     cur().axiom(cs * cs + sn * sn == 1, "trig")
     if sym._is_conc(th) and sym.cnum(th) == 0:
         return 1, 0
